@@ -638,6 +638,12 @@ class AssociationSocket:
         sock = cast(socket.socket, self.socket)
         try:
             sock.shutdown(socket.SHUT_RDWR)
+        except Exception:
+            pass
+
+        # Always close the socket, shutdown() raises if the peer has already
+        #   closed the connection
+        try:
             sock.close()
         except Exception:
             pass
